@@ -27,6 +27,7 @@ def events (d : D) (toks : List String) : D × List Ev :=
     (d, tm ++ [.call t (k = "w" ∨ k = "tw") (if k.startsWith "t" then some 0 else if to = "inf" then none else to.toNat?) (k.startsWith "t")])
   | ["ret", t, _, r, _, _] => let (d, t) := intern d t; (d, tm ++ [.ret t (r = "0")])
   | ["unlock", t, _] => let (d, t) := intern d t; (d, tm ++ [.unlock t])
+  | ["intr", t] => let (d, t) := intern d t; (d, [.interrupt t])
   | "overlap" :: _ => (d, [.overlap])
   | _ => (d, [])
 
